@@ -332,7 +332,14 @@ def notification_round(rng):
         finally:
             active[0] -= 1
 
-    nm = NotificationManager(handler)
+    done_calls = [0]
+
+    class NM(NotificationManager):
+        def done(self):
+            done_calls[0] += 1
+            NotificationManager.done(self)
+
+    nm = NM(handler)
     nm.start()
     lock = threading.Lock()
     raised = []
@@ -371,7 +378,31 @@ def notification_round(rng):
         probs.append(("handler_sequence_differs_from_raise_sequence", seen[:6], raised[:6]))
     if overlap[0]:
         probs.append(("handler_called_concurrently", overlap[0]))
-    nm.stop()
+    # the stop protocol on the real service (not a toy Runnable): a final stop of the - now idle or busy - notification loop
+    # runs its cleanup exactly once and the service refuses to start again
+    waiting = rng.random() < 0.5
+    if rng.random() < 0.5:
+        nm.notify(Notification(SourceEnum.SYNC, NotificationType.TEMPORARY_ERROR, "late"))      # stop while (probably) busy
+    try:
+        if waiting:
+            nm.stop(forever=True, wait=True)
+        else:
+            nm.stop(forever=True, wait=False)
+            nm.wait(timeout=10)
+    except TimeoutError:
+        probs.append(("INCONCLUSIVE notification service still running 10 s after a final stop",))
+        return probs, len(raised), len(fail)
+    except Exception as e:      # noqa
+        probs.append(("final_stop_of_notification_service_raised", repr(e)[:120]))
+        return probs, len(raised), len(fail)
+    if done_calls[0] != 1:
+        probs.append(("notification_service_cleanup_count_after_final_stop", done_calls[0], "waiting" if waiting else "non-waiting"))
+    try:
+        nm.start()
+        probs.append(("finally_stopped_notification_service_started_again",))
+        nm.stop(forever=True)
+    except RuntimeError:
+        pass
     return probs, len(raised), len(fail)
 
 
